@@ -13,6 +13,7 @@ from .core import *
 from . import lib as L
 from . import spec as S
 from .interp import Interp, Frame
+from . import lemmas as LM
 
 
 class FObj:
@@ -119,14 +120,17 @@ class SpecDB:
 
     # ------------------------------------------------------------ evaluation of clauses
 
-    def eval_clause(self, I, st, cl, env, env_now=None, boolean=True):
+    def eval_clause(self, I, st, cl, env, env_now=None, boolean=True, collect_defs=None):
         p = Pure(self, I, st, cl.file)
         missing = [a for a in cl.args if a not in env]
         if missing:
             raise Unbound(f"clause {cl.name}: cannot bind {missing}")
         v = p.ev(cl.expr, {a: env[a] for a in cl.args}, env_now)
         for d in p.defs:
-            st.assume(d)
+            if collect_defs is not None and z3.is_quantifier(d) is False and not (z3.is_quantifier(d)):
+                collect_defs.append(d)
+            else:
+                st.assume(d)
         if boolean:
             return p.as_bool(v)
         if not isinstance(v, Num):
@@ -289,6 +293,10 @@ class SpecDB:
             e["result"] = freeze(I, r, s.heap)
             now_env["result"] = e["result"]
             for name in c.ensures:
+                if name in c.opts.get("no_export", ()):
+                    continue
+                if name in c.opts.get("assumed", {}):
+                    I.assumed.add(f"assumed contract clause {c.qual.split('.')[-1]}.{name}: {c.opts['assumed'][name]}")
                 cl = self.clause(c, name)
                 s.assume(self.eval_clause(I, s, cl, e, env_now=now_env))
             res.append((s, r))
@@ -394,8 +402,15 @@ class Pure:
         raise EngineError("spec unary")
 
     def p_BoolOp(self, node, env):
-        vs = [self.as_bool(self.ev(v, env)) for v in node.values]
-        return Num(z3.And(*vs) if isinstance(node.op, ast.And) else z3.Or(*vs), "bool")
+        is_and = isinstance(node.op, ast.And)
+        vs = []
+        for v in node.values:
+            b = self.as_bool(self.ev(v, env))
+            bs = z3.simplify(b)
+            if (is_and and z3.is_false(bs)) or (not is_and and z3.is_true(bs)):
+                return BoolN(not is_and)          # short-circuit on a concrete operand (later operands may be ill-typed)
+            vs.append(b)
+        return Num(z3.And(*vs) if is_and else z3.Or(*vs), "bool")
 
     def p_IfExp(self, node, env):
         c = self.as_bool(self.ev(node.test, env))
@@ -419,12 +434,11 @@ class Pure:
         if op in ("Add", "Sub", "Mult", "Div"):
             return L.scalar_op_total(op, a, b)
         if op == "FloorDiv":
-            x, y = to_int(a), to_int(b)
-            return Num(z3.If(y > 0, x / y, (-x) / (-y)), "int")
+            # specification-level // and %: SMT-LIB div/mod, which coincide with Python's for a positive divisor
+            # (contracts only divide by lengths / window sizes that their own clauses constrain to be >= 1)
+            return Num(to_int(a) / to_int(b), "int")
         if op == "Mod":
-            x, y = to_int(a), to_int(b)
-            q = z3.If(y > 0, x / y, (-x) / (-y))
-            return Num(x - y * q, "int")
+            return Num(to_int(a) % to_int(b), "int")
         if op == "Pow":
             t = L.power(None, None, a, b, None)
             return Num(t, "int" if t.sort() == z3.IntSort() else "real")
@@ -552,6 +566,8 @@ class Pure:
                 self.I.need_sum = True
                 return Num(SUM(A, lo, hi), "real")
             args = [self.ev(a, env) for a in node.args]
+            if name in ("min", "max", "abs", "absr", "pw", "trunc", "float", "eq", "le", "lt"):
+                args = [a.val if isinstance(a, OptV) else a for a in args]
             if name in env and isinstance(env[name], FunV):
                 fv = env[name]
                 if fv.kind == "uninterp":
@@ -624,6 +640,31 @@ class Pure:
                 if name == "normal_size":
                     return Num(v, "int")
                 return freeze(self.I, v, self.st.heap)
+            if name in LM.SUM_LEMMAS:
+                # application of a lemma that is proved (by induction) in the same check run: its instance is assumed
+                vs, hi, body, pats = LM._stmt(name)
+                formals = vs + [hi]
+                if len(formals) != len(args):
+                    raise EngineError(f"lemma {name} takes {len(formals)} arguments")
+                subst = []
+                for fv_, a in zip(formals, args):
+                    if fv_.sort() == ARR:
+                        subst.append((fv_, L.array_term(self.I, self.st, a)))
+                    elif fv_.sort() == z3.IntSort():
+                        subst.append((fv_, to_int(a)))
+                    else:
+                        subst.append((fv_, to_real(a)))
+                self.defs.append(z3.substitute(body, *subst))
+                self.I.lemmas_applied.add(name)
+                return BoolN(True)
+            if name in ("min_of", "max_of"):
+                v = args[0]
+                A = L.array_term(self.I, self.st, v)
+                for ax in extreme_axioms(A, v.length, name == "min_of"):
+                    self.defs.append(ax)
+                return Num((MINF if name == "min_of" else MAXF)(A, v.length), "real")
+            if name == "is_2d":
+                return BoolN(isinstance(args[0], F2))
             if name == "is_tuple":
                 return BoolN(isinstance(args[0], TupV))
             if name == "is_none":
@@ -722,6 +763,8 @@ def verify_function(db, modules, qual, bounded=False, sizes=None):
         pre_env = {k: freeze(I, v, st.heap) for k, v in env.items()}
         for name in c.requires:
             st.assume(db.eval_clause(I, st, db.clause(c, name), pre_env))
+        for name in c.hints.get(("entry", "head"), []):
+            I.oblige(st, db.eval_clause(I, st, db.clause(c, name), pre_env), "hint", name, "entry")
         combo_tag = ",".join(f"{p}:{t.tag}" for p, t in combo if len(db.alternatives(c.params[p])) > 1)
         outs = I.exec_block(fdef.body, st)
         for s, ctl in outs:
@@ -739,7 +782,7 @@ def verify_function(db, modules, qual, bounded=False, sizes=None):
         for o in I.obligations:
             o.lemmas = list(c.opts.get("lemmas", []))
         res.obligations.extend(I.obligations)
-        res.lemmas_used = set(c.opts.get("lemmas", []))
+        res.lemmas_used = set(c.opts.get("lemmas", [])) | set(I.lemmas_applied) | getattr(res, "lemmas_used", set())
         res.inlined |= I.inline_log
         res.lib_used |= I.lib_used
         res.assumed |= I.assumed
@@ -747,10 +790,12 @@ def verify_function(db, modules, qual, bounded=False, sizes=None):
     return res
 
 
-def frame_goals(db, I, c, s, env):
-    """buffers reachable from arguments that are not in `modifies` are unchanged"""
+def frame_goals(db, I, c, s, env, strict_fields=False):
+    """buffers that existed at entry and are reachable from the arguments are unchanged (in-place writes are what is
+    excluded; re-binding a field of a `modifies` object to a fresh array is allowed unless strict_fields)"""
     goals = []
     seen = set()
+    writes = set(getattr(c, "opts", {}).get("writes", ())) if hasattr(c, "opts") else set()
 
     def visit(v, path):
         if isinstance(v, Ref):
@@ -775,13 +820,21 @@ def frame_goals(db, I, c, s, env):
             elif isinstance(o0, ObjVal):
                 for k, x in o0.fields.items():
                     visit(x, path + "." + k)
+                    if strict_fields:
+                        y = o1.fields.get(k) if isinstance(o1, ObjVal) else None
+                        if isinstance(x, Ref):
+                            goals.append((path + "." + k + ":binding", z3.BoolVal(isinstance(y, Ref) and y.id == x.id)))
+                        elif isinstance(x, Num) and isinstance(y, Num):
+                            goals.append((path + "." + k + ":binding", L.eq_val(I, s, x, y)))
             elif isinstance(o0, Seq2Val):
                 goals.append((path, z3.BoolVal(o1 is o0)))
         elif isinstance(v, TupV):
             for k, x in enumerate(v.items):
                 visit(x, f"{path}[{k}]")
     for p, v in env.items():
-        if p in c.modifies:
+        if p in writes:
+            continue
+        if p in c.modifies and not (isinstance(v, Ref) and isinstance(s.heap0.get(v.id), ObjVal)):
             continue
         visit(v, p)
     return goals
@@ -797,10 +850,32 @@ def finish_return(db, I, c, s, env, pre_env, retv, tag):
     e = dict(pre_env)
     e["result"] = freeze(I, retv, s.heap)
     now_env["result"] = e["result"]
+    scoped = {}
+    uses = c.opts.get("uses", {})
+
+    def with_scope(name):
+        """temporarily extend the path condition by the scoped hints this clause declares it uses"""
+        extra = [scoped[u] for u in uses.get(name, []) if u in scoped]
+        return extra
     for name in c.hints.get(("return", "head"), []):
         cl = db.clause(c, name)
-        I.oblige(s, db.eval_clause(I, s, cl, e, env_now=now_env), "hint", name, wh)
+        inst = []
+        g = db.eval_clause(I, s, cl, e, env_now=now_env, collect_defs=inst if name in c.opts.get("scoped", ()) else None)
+        extra = with_scope(name)
+        saved = list(s.pc)
+        s.pc.extend(extra)
+        if name in c.opts.get("scoped", ()):
+            I.oblige(s, g, "hint", name, wh, assume=False)
+            s.pc = saved
+            scoped[name] = z3.And(g, *inst) if inst else g
+        else:
+            I.oblige(s, g, "hint", name, wh, assume=False)
+            s.pc = saved
+            s.assume(g)
     for name in c.ensures:
+        if name in c.opts.get("assumed", {}):
+            I.assumed.add(f"assumed contract clause {c.qual.split('.')[-1]}.{name}: {c.opts['assumed'][name]}")
+            continue
         cl = db.clause(c, name)
         try:
             g = db.eval_clause(I, s, cl, e, env_now=now_env)
@@ -812,7 +887,10 @@ def finish_return(db, I, c, s, env, pre_env, retv, tag):
             g = z3.BoolVal(False)
             I.oblige(s, g, "ensures", name, wh + f"<result of unexpected type: {str(err)[:80]}>", assume=False)
             continue
+        saved = list(s.pc)
+        s.pc.extend(with_scope(name))
         I.oblige(s, g, "ensures", name, wh, assume=False)
+        s.pc = saved
     if not c.opts.get("no_frame"):
         for path, g in frame_goals(db, I, c, s, env):
             I.oblige(s, g, "frame", path, wh, assume=False)
@@ -832,8 +910,8 @@ def finish_raise(db, I, c, s, env, pre_env, exc, tag):
         cond = db.eval_clause(I, s, db.clause(c, c.raises[exc.cls]), pre_env)
         I.oblige(s, cond, "raises-only-if", f"{exc.cls}:{c.raises[exc.cls]}", wh)
         # a rejected request leaves every argument (incl. self) untouched
-        for path, g in frame_goals(db, I, FrameAll(c), s, env):
-            I.oblige(s, g, "frame-on-raise", f"{exc.cls}:{path}", wh)
+        for path, g in frame_goals(db, I, FrameAll(c), s, env, strict_fields=True):
+            I.oblige(s, g, "frame-on-raise", f"{exc.cls}:{path}", wh, assume=False)
     elif exc.cls in c.raises_only:
         pass
     else:
@@ -843,3 +921,4 @@ def finish_raise(db, I, c, s, env, pre_env, exc, tag):
 class FrameAll:
     def __init__(self, c):
         self.modifies = []
+        self.opts = {}
